@@ -51,6 +51,9 @@ type Action struct {
 	// DeadlineUs > 0: the reply is sent under a context with this (generous)
 	// deadline on the simulated clock; it must not leak into later replies.
 	DeadlineUs int `json:"deadline_us,omitempty"`
+	// ByValue (reply, error): the parameters are handed over as a json.RawMessage
+	// value instead of a pointer to one.
+	ByValue bool `json:"by_value,omitempty"`
 }
 
 // Script is what the test dispatcher does for one call.
@@ -204,10 +207,18 @@ func (d *testIface) VarlinkDispatch(ctx context.Context, c varlink.Call, methodn
 		switch a.Op {
 		case "reply":
 			c.Continues = a.Continues
-			err := c.Reply(ctx, rawOrNil(a.Params))
+			var p interface{} = rawOrNil(a.Params)
+			if a.ByValue && a.Params != "" {
+				p = json.RawMessage(a.Params)
+			}
+			err := c.Reply(ctx, p)
 			sim.Rec("h.act", sf(`{"cid":%d,"i":%d,"op":"reply","err":%q}`, cid, i, errStr(err)))
 		case "error":
-			err := c.ReplyError(ctx, a.Name, rawOrNil(a.Params))
+			var p interface{} = rawOrNil(a.Params)
+			if a.ByValue && a.Params != "" {
+				p = json.RawMessage(a.Params)
+			}
+			err := c.ReplyError(ctx, a.Name, p)
 			sim.Rec("h.act", sf(`{"cid":%d,"i":%d,"op":"error","err":%q}`, cid, i, errStr(err)))
 		case "builtin":
 			var err error
